@@ -17,6 +17,20 @@ def env(maxcalls, ops="all", emit="0", every=1, offset=0):
     return {"MAXCALLS": maxcalls, "OPS": ops, "EMIT": emit, "EVERY": every, "OFFSET": offset}
 
 
+OBJPOOL = {"o1": ("length", "m"), "o2": ("time", "min")}
+
+
+class Tracked:
+    """A client object that registers itself with the manager: a category and a settable unit."""
+
+    def __init__(self, category, unit):
+        self._category = category
+        self.unit = unit
+
+    def GetCategory(self):
+        return self._category
+
+
 class World:
     def __init__(self):
         from barril.units.unit_system_manager import UnitSystemManager
@@ -25,6 +39,7 @@ class World:
         self.lits = copy.deepcopy(LITS)      # the caller's dict objects: the same object is passed for the same literal
         self.systems = {}                   # id -> system object as returned by AddUnitSystem (held by the caller)
         self.log = []
+        self.objs = {}                      # id -> tracked object, held (only) by the caller
         self.m.on_current.Register(self._on_current)
         self.m.on_unit_changed.Register(self._on_unit)
 
@@ -58,6 +73,14 @@ class World:
                 m.GetUnitSystemById(a["id"]).SetDefaultUnit(a["c"], a["u"])
             elif op == "RemoveCategory":
                 m.GetUnitSystemById(a["id"]).RemoveCategory(a["c"])
+            elif op == "Register":
+                if a["o"] not in self.objs:
+                    self.objs[a["o"]] = Tracked(*OBJPOOL[a["o"]])
+                m.Register(self.objs[a["o"]])
+            elif op == "DropObject":
+                import gc
+                del self.objs[a["o"]]
+                gc.collect()
             elif op == "GetNewId":
                 out["t"] = m.GetNewId()
             elif op == "GetCategoryDefaultUnit":
@@ -95,7 +118,8 @@ class World:
                 "ids_of_objects": {sid: s.GetId() for sid, s in systems.items()},
                 "current": cur if cur is not None else NONE,
                 "tset": t is not None, "tm": dict(t.GetUnitsMapping()) if t is not None else {},
-                "log": [list(e) for e in self.log], "lits": copy.deepcopy(self.lits)}
+                "log": [list(e) for e in self.log], "lits": copy.deepcopy(self.lits),
+                "objs": {o: [x.GetCategory(), x.unit] for o, x in self.objs.items()}}
 
 
 def diff_out(pred, obs, op, a):
@@ -130,6 +154,9 @@ def diff_state(t, p):
         d.append("template: predicted %r %r observed %r %r" % (t["tset"], tm, p["tset"], p["tm"]))
     if [list(e) for e in t["log"]] != p["log"]:
         d.append("callback log: predicted %r observed %r" % (t["log"], p["log"]))
+    objs = {x["o"]: [x["c"], x["u"]] for x in t.get("objs", [])}
+    if objs != p["objs"]:
+        d.append("tracked objects: predicted %r observed %r" % (objs, p["objs"]))
     if p["lits"] != LITS:
         d.append("the caller's mapping dicts were changed: %r" % p["lits"])
     return d
@@ -181,7 +208,7 @@ def main(tier):
     if thorough:
         runs = [(4, "all", 1, 0), (5, "mut", 2, common.sample_seed()), (5, "all", 4, common.sample_seed(1))]
     else:
-        runs = [(3, "all", 1, 0), (4, "all", 8, common.sample_seed()), (5, "mut", 40, common.sample_seed(1))]
+        runs = [(3, "all", 1, 0), (4, "all", 16, common.sample_seed()), (5, "mut", 160, common.sample_seed(1))]
     n = 0
     ops = {}
     for depth, opset, every, offset in runs:
